@@ -50,7 +50,11 @@ static void p_syntax_error (int err, void *ea, int ign, void *ia, int rec, void 
     }
   p_nerr++;
 }
-static void *p_alloc (int n) { return malloc ((size_t) n); }
+/* with p_track set the tree blocks are recorded so that a harness can release the result of a parse */
+#define P_MAXBLK 4000
+static int p_track, p_nblk; static void *p_blk[P_MAXBLK];
+static void *p_alloc (int n) { void *p = malloc ((size_t) n); if (p_track && p_nblk < P_MAXBLK) p_blk[p_nblk++] = p; return p; }
+static void p_release_trees (void) { int i; for (i = 0; i < p_nblk; i++) free (p_blk[i]); p_nblk = 0; }
 static void p_free (void *p) { free (p); }
 
 struct pconf { int la, one, cost, rec, match, use_free; };
@@ -59,11 +63,14 @@ struct pres { int rc, amb; struct yaep_tree_node *root; };
 /* one parse of the current input with a fresh grammar object */
 static struct grammar *p_g;
 static int p_dbg, p_raw_la, p_use_raw_la;   /* optional: debug level and unclamped lookahead argument */
+static int p_again;                         /* optional: report the second parse of the same object */
+static int p_la_def = -1;                   /* optional: lookahead level in force while the grammar is defined */
 static void p_run (const struct pconf *c, int strict, struct pres *r)
 {
   int drc;
   p_g = yaep_create_grammar ();
   sx_assume (p_g != NULL);
+  if (p_la_def >= 0) yaep_set_lookahead_level (p_g, p_la_def);
   drc = g_define (p_g, strict);
   sx_assert (drc == 0, "catalogue grammar accepted");
   yaep_set_lookahead_level (p_g, p_use_raw_la ? p_raw_la : c->la);
@@ -72,6 +79,13 @@ static void p_run (const struct pconf *c, int strict, struct pres *r)
   yaep_set_cost_flag (p_g, c->cost);
   yaep_set_error_recovery_flag (p_g, c->rec);
   if (c->match > 0) yaep_set_recovery_match (p_g, c->match);
+  if (p_again)
+    { /* the object has already parsed the same input once and the owner has released that result:
+         the reported parse is the second one (contexts, rule names etc. of the first parse are still in the object) */
+      p_track = 1; p_rd = 0; p_nerr = 0; r->root = NULL; r->amb = 0;
+      (void) yaep_parse (p_g, p_read_token, p_syntax_error, p_alloc, NULL, &r->root, &r->amb);
+      p_release_trees (); p_track = 0;
+    }
   p_rd = 0; p_nerr = 0; r->root = NULL; r->amb = 0;
   r->rc = yaep_parse (p_g, p_read_token, p_syntax_error, p_alloc, c->use_free ? p_free : NULL, &r->root, &r->amb);
 }
@@ -90,6 +104,7 @@ static void t_walk (struct yaep_tree_node *n, int alt_ok, int depth)
 {
   int k;
   if (n == NULL || depth > 64) { t_bad |= 1; return; }
+  if (!sx_mem_valid (n, sizeof *n)) { t_bad |= 512; return; }      /* the node lives in released or foreign memory */
   t_nodes++; if (t_nodes > 20000) { t_bad |= 2; return; }
   switch ((int) n->type)
     {
@@ -98,6 +113,7 @@ static void t_walk (struct yaep_tree_node *n, int alt_ok, int depth)
     case YAEP_TERM: break;
     case YAEP_ANODE:
       if (n->val.anode.name == NULL || n->val.anode.children == NULL) { t_bad |= 16; break; }
+      if (!sx_mem_valid (n->val.anode.name, 1) || !sx_mem_valid (n->val.anode.children, sizeof (void *))) { t_bad |= 512; break; }
       for (k = 0; n->val.anode.children[k]; k++) t_walk (n->val.anode.children[k], alt_ok, depth + 1);
       break;
     case YAEP_ALT:
@@ -271,7 +287,37 @@ static const char *const near_bases[][4] = {
     /* G31 */ { "xxbq", "xxbp", "xbp", "xxnbq" }, /* G32 */ { "x", "xd", "xdcbat", "xt" },
   /* G33 */ { "a*a+a", "a+a*a+a", "a*a+a*a+a", "a*a+a+a" },
   /* G34 */ { "(a++a)+(+a)", "(a+)+(a", "(+a)", "((+)" },
+  /* G35 */ { "apqdapqdbpqdz", "bpqdz", "apqbpqdz", "apqdbpqd" }, /* G36 */ { "pzzdezxqzy", "pzxqzzdezy", "pzxqzx", "pzzzdezzxpzx" },
+  /* G37 */ { "abcdefx", "abcdeffx", "abcdex", "abcdef" }, /* G38 */ { "pijqrisviw", "tkutijuris", "piqriu", "vkwtiw" },
+  /* G39 */ { "b", "bx", 0, 0 },
 };
+/* input family REP(m): m fragments, each chosen by the solver from the grammar's list, then a tail - long inputs with
+   many repeated fragments (the goto cache and the dynamic-lookahead context table only matter there) */
+struct repfrag { const char *gid; const char *frag[6]; const char *tail[3]; };
+static const struct repfrag rep_frags[] = {
+  { "G10", { "a;", "bbb;", "ab;", "a", 0, 0 }, { "", "a;", 0 } },
+  { "G19", { "xabc", "yabd", "xac", "yad", "xabd", 0 }, { "", "xa", 0 } },
+  { "G35", { "apqd", "bpqd", "apd", 0, 0, 0 }, { "z", "", "zz" } },
+  { "G36", { "pzx", "pzzzzzdezx", "qzzdezy", "qzy", "pzzdezx", "pzy" }, { "", "y", "x" } },
+  { "G38", { "piq", "ris", "tiu", "viw", "rijs", "tku" }, { "", "q", 0 } },
+};
+static int p_lookup_term (char c) { int j; for (j = 0; j < G.nsym; j++) if (G.sym[j].kind == SK_TERM && G.sym[j].name[0] == c && G.sym[j].name[1] == 0) return j; return -1; }
+static void p_input_rep (int m, int nfrag, int frag0)
+{
+  const struct repfrag *rf = NULL; int i, k, nf = 0, ntl = 0; const char *s;
+  for (i = 0; i < (int) (sizeof rep_frags / sizeof rep_frags[0]); i++) if (strcmp (rep_frags[i].gid, G.id) == 0) rf = &rep_frags[i];
+  sx_assume (rf != NULL);
+  while (nf < 6 && rf->frag[nf]) nf++;
+  while (ntl < 3 && rf->tail[ntl]) ntl++;
+  if (nfrag > 0 && nfrag < nf) nf = nfrag;
+  p_n = 0;
+  for (k = 0; k <= m; k++)
+    {
+      s = k < m ? rf->frag[k == 0 && frag0 >= 0 ? (sx_assume (frag0 < nf), frag0) : sx_choice ("frag", nf)] : rf->tail[sx_choice ("tail", ntl)];
+      for (i = 0; s[i]; i++) { int j = p_lookup_term (s[i]); sx_assume (j >= 0 && p_n < P_MAXTOK); p_sym[p_n++] = j; }
+    }
+  for (i = 0; i < p_n; i++) { p_code[i] = G.sym[p_sym[i]].code; p_attr[i] = sx_long ("attr"); }
+}
 static void p_input_near (int gi, int base, int k)
 {
   const char *b = near_bases[gi][base]; int i, j, e, nt = g_nterm ();
@@ -296,7 +342,9 @@ static void p_setup (void)
 {
   int gi = (int) sx_param ("grammar", 0), len = (int) sx_param ("len", 2), first = (int) sx_param ("first", -1), base = (int) sx_param ("base", -1);
   g_select (&catalogue[gi]);
-  if (base >= 0) p_input_near (gi, base, (int) sx_param ("edits", 1));
+  p_again = (int) sx_param ("again", 0);
+  if (sx_param ("rep", 0) > 0) p_input_rep ((int) sx_param ("rep", 0), (int) sx_param ("nfrag", 0), (int) sx_param ("frag0", -1));
+  else if (base >= 0) p_input_near (gi, base, (int) sx_param ("edits", 1));
   else p_input_all (len, first);
   p_to_seq ();
 }
